@@ -115,7 +115,8 @@ pub fn slot_cycles(acc: &mut Acc, kill: usize, desc: bool, put_first: bool, cycl
 }
 
 /// variant 0: put after bind; 1: put before bind; 2: heap datum put, read, put again (the same
-/// bytes) while ungrouped, then bind, then read
+/// bytes) while ungrouped, then bind, then read; 3: as 0, and between the put and the read of
+/// every 4th cycle the graph is handed over to a used object by clone_from()
 pub fn slot_cycles_v(acc: &mut Acc, kill: usize, desc: bool, variant: u8, cycles: usize) {
     let put_first = variant == 1;
     if kill == 0 {
@@ -152,10 +153,13 @@ pub fn slot_cycles_v(acc: &mut Acc, kill: usize, desc: bool, variant: u8, cycles
         if c % 5 == 4 {
             ops.push(Op::Data(y)); // an empty read in between
         }
+        if variant == 3 && c % 4 == 1 {
+            ops.push(Op::CloneFromSwap);
+        }
         ops.push(Op::Data(x));
     }
     let alive = 14 - order.len();
-    if run_history::<2>(acc, "C06", &format!("slot table: 14 groups, kill {kill:#016b} {}, then {cycles} cycles ({}) with {alive} groups alive", if desc { "descending" } else { "ascending" }, match variant { 1 => "put before bind", 2 => "heap datum put, read and put again before the bind", _ => "put after bind" }), 32, &ops) {
+    if run_history::<2>(acc, "C06", &format!("slot table: 14 groups, kill {kill:#016b} {}, then {cycles} cycles ({}) with {alive} groups alive", if desc { "descending" } else { "ascending" }, match variant { 1 => "put before bind", 2 => "heap datum put, read and put again before the bind", 3 => "put after bind, clone_from() into a used object in every 4th cycle", _ => "put after bind" }), 32, &ops) {
         acc.nontrivial += 1;
         acc.bump("cycle_runs_completed", 1);
         acc.bump("collections_in_cycles", cycles as u64);
@@ -205,10 +209,10 @@ pub fn run_c06_family(tier: &str) -> Acc {
     });
     // long runs: contiguous patterns for every number k of groups kept alive
     let long = if quick { 150 } else { 300 };
-    let lacc = super::par_cases(14 * 3, |k, acc| {
-        let keep = k / 3; // 0..=13 groups stay alive
+    let lacc = super::par_cases(14 * 4, |k, acc| {
+        let keep = k / 4; // 0..=13 groups stay alive
         let kill = ((1usize << 14) - 1) & !((1usize << keep) - 1);
-        slot_cycles_v(acc, kill, false, (k % 3) as u8, long);
+        slot_cycles_v(acc, kill, false, (k % 4) as u8, long);
         acc.bump("long_runs", 1);
     });
     acc.merge(lacc);
@@ -386,7 +390,10 @@ pub fn groups_then_swap(acc: &mut Acc, prop: &'static str, k: usize, swap: Op, v
 }
 
 pub fn run_swap_family(prop: &'static str, swap: Op) -> Acc {
-    super::par_cases(14 * 4, |i, acc| {
+    // C10: the same through clone_from() into a used object
+    let swaps: Vec<Op> = if swap == Op::CloneSwap { vec![Op::CloneSwap, Op::CloneFromSwap] } else { vec![swap] };
+    super::par_cases(14 * 4 * swaps.len(), |i, acc| {
+        let (swap, i) = (swaps[i / 56], i % 56);
         groups_then_swap(acc, prop, i / 4 + 1, swap, i % 4);
         if i % 17 == 0 {
             acc.sample(json!({"family": "k groups then swap", "k": i / 4 + 1, "variant": i % 4}));
